@@ -1,9 +1,12 @@
 package main
 
 import (
+	"bytes"
 	"context"
 	"fmt"
+	"net/http/httptest"
 	"strings"
+	"sync"
 	"time"
 
 	goat "github.com/avos-io/goat"
@@ -214,4 +217,96 @@ func c19HttpTable(r *Run) {
 		node.Close()
 		hooks.Reset(false)
 	}
+}
+
+// c19HttpFirstContact: several requests from a source the node has never seen arrive at the same time.
+// The source gets ONE connection: one announcement (OnConnect), every envelope delivered exactly once
+// on it, in some order.
+func c19HttpFirstContact(r *Run) {
+	rounds := r.Scale(300, 8000)
+	const k = 6
+	node := c19NewNode(c19IdentityMapper)
+	defer node.Close()
+	type got struct {
+		id  string
+		env *Rpc
+	}
+	delivered := make(chan got, 1<<16)
+	announced := map[string]int{}
+	var amu sync.Mutex
+	ctx, cancel := context.WithCancel(context.Background())
+	defer cancel()
+	go func() {
+		for {
+			select {
+			case c := <-node.conns:
+				amu.Lock()
+				announced[c.id]++
+				amu.Unlock()
+				go func() {
+					for {
+						e, err := c.rw.Read(ctx)
+						if err != nil {
+							return
+						}
+						delivered <- got{c.id, e}
+					}
+				}()
+			case <-ctx.Done():
+				return
+			}
+		}
+	}()
+	for round := 0; round < rounds && r.NumViolations() <= 4; round++ {
+		src := fmt.Sprintf("fresh-%d", round)
+		if round%64 == 0 {
+			r.Progress("http.firstcontact", map[string]any{"round": round, "concurrent_requests": k})
+		}
+		start := make(chan struct{})
+		var wg sync.WaitGroup
+		codes := make([]int, k)
+		for i := 0; i < k; i++ {
+			body, _ := goat_marshal(&Rpc{Id: uint64(i + 1), Header: &goatorepo.RequestHeader{Method: "/svc/m", Source: src, Destination: "node"}})
+			wg.Add(1)
+			go func(i int) {
+				defer wg.Done()
+				<-start
+				rec := httptest.NewRecorder()
+				node.serve(rec, httptest.NewRequest("POST", "/", bytes.NewReader(body)))
+				codes[i] = rec.Code
+			}(i)
+		}
+		close(start)
+		if !within(hangTimeout, wg.Wait) {
+			r.Violate("http.firstcontact.hang", "schedule", "a request of a new source was never delivered (nobody was given a connection that it is delivered on)", map[string]any{"round": round, "source": src}, goroutineDump(), nil)
+			return
+		}
+		seen := map[uint64]int{}
+		for i := 0; i < k; i++ {
+			select {
+			case g := <-delivered:
+				if g.id == src {
+					seen[g.env.Id]++
+				}
+			case <-time.After(hangTimeout):
+				r.Violate("http.firstcontact.lost", "schedule", "an envelope answered with 200 was not delivered", map[string]any{"round": round, "source": src}, fmt.Sprint(seen), nil)
+				return
+			}
+		}
+		amu.Lock()
+		n := announced[src]
+		amu.Unlock()
+		bad := n != 1
+		for i := 1; i <= k; i++ {
+			if seen[uint64(i)] != 1 {
+				bad = true
+			}
+		}
+		if bad {
+			r.Violate("http.firstcontact", "schedule", "concurrent first requests of one source: the source must get one connection (one announcement) and every envelope exactly once", map[string]any{"round": round, "source": src, "concurrent_requests": k},
+				map[string]any{"announcements": n, "delivered": fmt.Sprint(seen), "status": codes}, "1 announcement, each envelope once")
+		}
+		r.Eval("http.firstcontact/"+src, true)
+	}
+	r.CountN("http.firstcontact.rounds", rounds)
 }
